@@ -315,7 +315,7 @@ int main (int argc, char *argv[]) {
                      * out the split string */
                     matched++;
                     if(matched == split_size) {
-                        if(l > matched)
+                        if(l - (start + matched - 1) > 0)
                             write_data(zck, data + start, l - (start + matched - 1));
                         if(zck_end_chunk(zck) < 0)
                             exit(1);
